@@ -1331,6 +1331,57 @@ theorem setVal_spec {s : State} (I : Inv s) (i : Nat) (v : Option Nat) :
 theorem state_given_nil (s : State) : ({ s with given := s.given ++ [] } : State) = s := by
   cases s; simp
 
+/-- what `createAll` (a series of `ss << h`) does -/
+theorem createAll_spec {s : State} (I : Inv s) {i : Nat} {o : Obj} (hi : s.obj i = some o) (hs : List Ptr) :
+    Inv (createAll s i hs)
+    ∧ handles (createAll s i hs) i = handles s i ++ hs
+    ∧ (∀ k, k ≠ i → handles (createAll s i hs) k = handles s k)
+    ∧ (∃ o', (createAll s i hs).obj i = some o' ∧ o'.typed = o.typed ∧ o'.value = o.value)
+    ∧ (∀ k, k ≠ i → (createAll s i hs).obj k = s.obj k)
+    ∧ (createAll s i hs).objs.length = s.objs.length
+    ∧ (createAll s i hs).queue = s.queue ∧ resumed (createAll s i hs) = resumed s
+    ∧ (createAll s i hs).popped = s.popped ∧ (createAll s i hs).given = s.given ++ hs
+    ∧ (createAll s i hs).active = s.active := by
+  induction hs generalizing s o with
+  | nil => exact ⟨I, by simp [createAll], fun _ _ => rfl, ⟨o, hi, rfl, rfl⟩, fun _ _ => rfl, rfl, rfl, rfl, rfl, by simp [createAll], rfl⟩
+  | cons h t ih =>
+      have A := addH_spec I hi h
+      have H0 : HeapOk { s with given := s.given ++ [h] } := heapOk_of_eq I.heap rfl rfl rfl [] (by simp)
+      have O0 : Own { s with given := s.given ++ [h] } := own_of_eq I.own rfl rfl
+      have Q := add_spec H0 O0 (s := { s with given := s.given ++ [h] }) hi h
+      obtain ⟨I1, a1, a2, ⟨o1, b1, b2, b3⟩, a4⟩ := A
+      obtain ⟨J, c1, c2, ⟨o2, d1, d2, d3⟩, c4, c5, c6, c7, c8, c9, c10⟩ := ih I1 b1
+      have e : createAll s i (h :: t) = createAll (add { s with given := s.given ++ [h] } i h) i t := rfl
+      rw [e]
+      refine ⟨J, by rw [c1, a1, List.append_assoc]; rfl, fun k hk => by rw [c2 k hk, a2 k hk],
+        ⟨o2, d1, d2.trans b2, d3.trans b3⟩, fun k hk => by rw [c4 k hk, a4 k hk], c5.trans Q.len, c6.trans Q.queue,
+        c7.trans Q.resumed, c8.trans Q.popped, ?_, c10.trans Q.active⟩
+      rw [c9, Q.given]; show s.given ++ [h] ++ t = _; simp
+
+/-- `create_suspend_point` into a vacant slot -/
+theorem create_spec {s : State} (I : Inv s) {i : Nat} (hv : vacant s i = true) (hs : List Ptr) (v : Option Nat) :
+    Inv (createAll (setObj s i (some { typed := v.isSome, value := v })) i hs)
+    ∧ handles (createAll (setObj s i (some { typed := v.isSome, value := v })) i hs) i = hs
+    ∧ (∀ k, k ≠ i → handles (createAll (setObj s i (some { typed := v.isSome, value := v })) i hs) k = handles s k)
+    ∧ (∃ o', (createAll (setObj s i (some { typed := v.isSome, value := v })) i hs).obj i = some o'
+        ∧ o'.typed = v.isSome ∧ o'.value = v)
+    ∧ (∀ k, k ≠ i → (createAll (setObj s i (some { typed := v.isSome, value := v })) i hs).obj k = s.obj k)
+    ∧ (createAll (setObj s i (some { typed := v.isSome, value := v })) i hs).objs.length = s.objs.length
+    ∧ (createAll (setObj s i (some { typed := v.isSome, value := v })) i hs).queue = s.queue
+    ∧ resumed (createAll (setObj s i (some { typed := v.isSome, value := v })) i hs) = resumed s
+    ∧ (createAll (setObj s i (some { typed := v.isSome, value := v })) i hs).popped = s.popped
+    ∧ (createAll (setObj s i (some { typed := v.isSome, value := v })) i hs).given = s.given ++ hs := by
+  obtain ⟨hil, hin⟩ := vacant_iff.1 hv
+  have C := ctor_spec I hv { typed := v.isSome, value := v } [] (by simp) rfl (by simp) (by simp)
+  rw [state_given_nil] at C
+  have hi0 : (setObj s i (some { typed := v.isSome, value := v })).obj i = some { typed := v.isSome, value := v } := by
+    rw [obj_setObj _ i _ i hil]; simp
+  have ho0 : ∀ k, k ≠ i → (setObj s i (some { typed := v.isSome, value := v })).obj k = s.obj k := by
+    intro k hk; rw [obj_setObj _ i _ k hil]; simp [hk]
+  obtain ⟨J, c1, c2, ⟨o2, d1, d2, d3⟩, c4, c5, c6, c7, c8, c9, -⟩ := createAll_spec C.1 hi0 hs
+  refine ⟨J, by rw [c1, C.2.1]; rfl, fun k hk => by rw [c2 k hk, C.2.2 k hk], ⟨o2, d1, d2, d3⟩,
+    fun k hk => by rw [c4 k hk, ho0 k hk], by rw [c5]; simp, c6, c7, c8, c9⟩
+
 theorem inv_step {s : State} (I : Inv s) (op : Op) : Inv (step s op).1 := by
   cases op with
   | ctor i =>
@@ -1434,6 +1485,10 @@ theorem inv_step {s : State} (I : Inv s) (op : Op) : Inv (step s op).1 := by
       simp only [step]; split
       · split <;> exact I
       · exact I
+  | create i hs v =>
+      simp only [step]; split
+      · exact (create_spec I ‹_› _ v).1
+      · exact I
   | finish =>
       simp only [step]; split
       · have := inv_flushAll I s.active
@@ -1521,6 +1576,10 @@ theorem step_len {s : State} (I : Inv s) (op : Op) : (step s op).1.objs.length =
   | cconv i => simp only [step]; split <;> (try split) <;> rfl
   | ares i => simp only [step]; split <;> (try split) <;> rfl
   | finish => simp only [step]; split <;> rfl
+  | create i hs v =>
+      simp only [step]; split
+      · exact (create_spec I ‹_› _ v).2.2.2.2.2.1
+      · rfl
 
 /-! ### end of life -/
 
@@ -1812,6 +1871,16 @@ theorem step_value_frame {s : State} (I : Inv s) (op : Op) :
   | cconv i => left; simp only [step]; split <;> (try split) <;> exact ValFrame.refl s
   | ares i => left; simp only [step]; split <;> (try split) <;> exact ValFrame.refl s
   | finish => left; simp only [step]; split <;> exact valFrame_of_obj (fun _ => rfl)
+  | create i hs v =>
+      left; simp only [step]; split
+      · rename_i hv
+        obtain ⟨hil, hin⟩ := vacant_iff.1 hv
+        have C := (create_spec I hv hs.reverse v).2.2.2.2.1
+        intro k o o' h1 h2
+        by_cases ek : k = i
+        · subst ek; rw [hin] at h1; cases h1
+        · rw [C k ek, h1] at h2; cases h2; exact ⟨rfl, rfl⟩
+      · exact ValFrame.refl s
 
 theorem idxOf_append_self (l : List Ptr) (x : Ptr) (h : x ∉ l) : (l ++ [x]).idxOf x = l.length := by
   induction l with
